@@ -57,6 +57,10 @@ pub struct Policy {
     pub yield_on_unbounded_send: bool,
     /// capacity override for bounded channels (small worlds)
     pub cap_override: Option<usize>,
+    /// second base schedule: the non-running threads are listed in descending id order (the default policy then
+    /// prefers the youngest thread); exploring d deviations around both base schedules covers orders that need
+    /// many deviations from one of them
+    pub descending: bool,
 }
 
 #[derive(Clone, Debug, PartialEq, Eq)]
@@ -154,7 +158,10 @@ impl Inner {
         // lazy threads (environment events such as `Signal`) come last: the default policy only runs them when
         // nothing else can run, so that a single deviation places the event at any chosen point
         for lazy in [false, true] {
-            for (i, t) in self.threads.iter().enumerate() {
+            let n = self.threads.len();
+            for k in 0..n {
+                let i = if self.policy.descending { n - 1 - k } else { k };
+                let t = &self.threads[i];
                 if i == running || t.name.starts_with("Signal") != lazy {
                     continue;
                 }
